@@ -79,6 +79,11 @@ pub enum Tamper {
     WrongDomain { cond: u8, opcode: u8 },
     /// an AGG_SIG_UNSAFE message is made to end in one of the 7 domain constants (and is signed as such)
     UnsafeSuffix { cond: u8, which: u8 },
+    /// the bundle is delivered with the aggregate signature of another bundle of the run
+    /// (one that other validations may already have verified through the shared cache)
+    ReplaySignature { from: u8 },
+    /// the bundle is delivered with the identity signature
+    IdentitySignature,
 }
 
 #[derive(Serialize, Deserialize, Clone, Debug, PartialEq)]
@@ -426,7 +431,11 @@ fn deliver(b: &BundleSpec, consts: &ConsensusConstants, d: &[[u8; 32]; 7]) -> De
                 spends[i].conds[j].opcode = *opcode;
             }
         }
-        Tamper::None | Tamper::WrongDomain { .. } | Tamper::UnsafeSuffix { .. } => {}
+        Tamper::IdentitySignature => {
+            sigs.clear();
+            signed.clear();
+        }
+        Tamper::None | Tamper::WrongDomain { .. } | Tamper::UnsafeSuffix { .. } | Tamper::ReplaySignature { .. } => {}
     }
     Delivered { spends, signature: aggregate(&sigs), signed, helper_mismatch }
 }
@@ -740,6 +749,8 @@ fn tamper_name(t: &Tamper) -> &'static str {
         Tamper::SwapOpcode { .. } => "swap_opcode",
         Tamper::WrongDomain { .. } => "wrong_domain_constant",
         Tamper::UnsafeSuffix { .. } => "unsafe_message_with_domain_suffix",
+        Tamper::ReplaySignature { .. } => "signature_of_another_bundle",
+        Tamper::IdentitySignature => "identity_signature",
     }
 }
 
@@ -796,7 +807,16 @@ impl C05 {
             return out(None, &d, None, None);
         }
         // ---- wallet, channel (tampering), ground truth ----
-        let delivered: Vec<Delivered> = case.bundles.iter().map(|b| deliver(b, &k, &dconst)).collect();
+        let mut delivered: Vec<Delivered> = case.bundles.iter().map(|b| deliver(b, &k, &dconst)).collect();
+        for i in 0..delivered.len() {
+            if let Tamper::ReplaySignature { from } = &case.bundles[i].tamper {
+                let j = *from as usize % delivered.len();
+                if j != i {
+                    delivered[i].signature = delivered[j].signature.clone();
+                    delivered[i].signed = delivered[j].signed.clone();
+                }
+            }
+        }
         for (i, dl) in delivered.iter().enumerate() {
             if let Some(m) = &dl.helper_mismatch {
                 return out(Some(viol("helper_message_differs_from_rule".into(), i, m.clone())), &d, None, None);
@@ -818,6 +838,8 @@ impl C05 {
                 Tamper::SwapOpcode { .. } => c.inc("fault.tamper.swap_opcode"),
                 Tamper::WrongDomain { .. } => c.inc("fault.tamper.wrong_domain_constant"),
                 Tamper::UnsafeSuffix { .. } => c.inc("fault.tamper.unsafe_message_with_domain_suffix"),
+                Tamper::ReplaySignature { .. } => c.inc("fault.tamper.signature_of_another_bundle"),
+                Tamper::IdentitySignature => c.inc("fault.tamper.identity_signature"),
             }
             if case.bundles[i].tamper != Tamper::None && t.accept {
                 c.inc("probe.tampering_that_reaches_no_signed_text");
@@ -1127,7 +1149,9 @@ fn gen_bundle(rng: &mut Rng, parent_counter: &mut u64, tamper_pct: u64, d: &[[u8
     let total: usize = spends.iter().map(|s| s.conds.len()).sum();
     let tamper = if rng.below(100) < tamper_pct {
         let cond = rng.below(total.max(1) as u64) as u8;
-        match rng.below(14) {
+        match rng.below(17) {
+            14 | 15 => Tamper::ReplaySignature { from: rng.below(4) as u8 },
+            16 => Tamper::IdentitySignature,
             0 => Tamper::DropSig { cond },
             1 => Tamper::ExtraSig { key: rng.below(NKEYS as u64) as u8, msg_seed: rng.below(1000) },
             2 => Tamper::FlipMsgByte { cond, pos: rng.below(64) as u16 },
@@ -1203,6 +1227,8 @@ impl Engine for C05 {
                 "tamper.swap_opcode",
                 "tamper.wrong_domain_constant",
                 "tamper.unsafe_message_with_domain_suffix",
+                "tamper.signature_of_another_bundle",
+                "tamper.identity_signature",
                 "preempted_between_lookup_and_put",
                 "capacity_pressure_runs",
             ],
@@ -1248,6 +1274,9 @@ impl Engine for C05 {
                         sp.amount = *rng.pick(&AMOUNTS);
                     }
                 }
+            }
+            if rng.chance(1, 3) {
+                twin.tamper = Tamper::ReplaySignature { from: 0 };
             }
             bundles[1] = twin;
         }
